@@ -25,7 +25,7 @@ ORDER = ["side_partial_cmp", "ub_partial_cmp", "ub_matches", "ub_try_into_range"
          "ubl_bounds_only", "ubl_is_sortable", "ubl_is_sorted", "ubl_has_negative_indices", "ubl_is_forward_only",
          "fast_try_from", "stream_try_from", "fb_try_from", "side_from_str", "ub_from_str",
          "ubl_unpack", "ubl_complement", "cut_bytes", "fast_output_parts", "fast_cut_record",
-         "fill_fields", "compress_delimiter", "trim", "maybe_replace", "fill_regex", "trim_regex", "compress_regex", "read_and_cut_lines", "cut_str", "print_field", "print_bof", "print_rest", "cut_lines", "read_and_cut_bytes", "get_last_bound", "lines_forward"]
+         "fill_fields", "compress_delimiter", "trim", "maybe_replace", "fill_regex", "trim_regex", "compress_regex", "cut_str", "print_field", "print_bof", "print_rest", "cut_lines", "read_and_cut_bytes", "get_last_bound", "lines_forward", "read_and_cut_lines"]
 DEPS = {"ub_partial_cmp": ["side_partial_cmp"], "ub_from_range": ["ub_new"], "ub_unpack": ["ub_new", "ub_try_into_range"],
         "ub_complement": ["ub_try_into_range", "complement_std_range", "ub_from_range", "ub_new"],
         "ubl_is_sortable": ["ubl_bounds_only"], "ubl_is_sorted": ["ubl_bounds_only", "ub_partial_cmp", "side_partial_cmp"],
@@ -44,7 +44,9 @@ DEPS = {"ub_partial_cmp": ["side_partial_cmp"], "ub_from_range": ["ub_new"], "ub
         "print_rest": ["ub_matches", "print_bof", "print_field"],
         "cut_str": ["trim", "trim_regex", "fill_fields", "compress_delimiter", "compress_regex", "fill_regex", "ubl_complement", "ubl_unpack", "ub_try_into_range", "maybe_replace",
                     "ub_complement", "complement_std_range", "ub_from_range", "ub_new", "ub_unpack", "ubl_has_negative_indices", "ubl_bounds_only"],
-        "read_and_cut_lines": ["ubl_is_forward_only", "ubl_bounds_only", "ubl_is_sortable", "ubl_is_sorted", "ubl_has_negative_indices", "ub_partial_cmp", "side_partial_cmp"],
+        "read_and_cut_lines": ["ubl_is_forward_only", "ubl_bounds_only", "ubl_is_sortable", "ubl_is_sorted", "ubl_has_negative_indices", "ub_partial_cmp", "side_partial_cmp",
+                               "lines_forward", "cut_lines", "cut_str", "ub_matches", "print_field", "print_bof", "trim", "trim_regex", "fill_fields", "compress_delimiter", "compress_regex", "fill_regex",
+                               "ubl_complement", "ubl_unpack", "ub_try_into_range", "maybe_replace", "ub_complement", "complement_std_range", "ub_from_range", "ub_new", "ub_unpack"],
         "fb_try_from": ["ubl_is_forward_only", "ubl_bounds_only", "ubl_is_sortable", "ubl_is_sorted", "ubl_has_negative_indices", "ub_partial_cmp", "side_partial_cmp"],
         "fast_cut_record": ["fast_output_parts", "ub_try_into_range", "fast_try_from"],
         "ubl_complement": ["ub_complement", "ub_try_into_range", "complement_std_range", "ub_from_range", "ub_new", "ubl_unpack",
